@@ -1,6 +1,6 @@
 """C10 - WTinyLFUCache: window -> TinyLFU admission filter -> segmented main cache."""
 from .lib import api, ntrun, composite, lin
-from .lib.routing import View, cond_facts, norm_cmp, SELF
+from .lib.routing import View, cond_facts, norm_cmp, outer_enters, SELF
 from .lib.absint import fmt_val, subterms
 from .lib.nt import payload_field
 from .lib.effects import loc_root
@@ -98,8 +98,9 @@ def put(cx, chk, cfg, F):
             if not any(v.final(x)[:2] == (W, W) for x in fresh):
                 bad("C10.R1", "miss-home", "a brand-new key does not enter the window")
             cand = [x for x in v.of("unindex", lst=W)]
-            lt = [(i, e) for i, e in enumerate(p.events) if e["ev"] == "enter" and e["q"].endswith("TinyLFU::lt") and e["depth"] == 0]
-            other_cmp = [e for e in p.events if e["ev"] == "enter" and e["depth"] == 0 and e["q"].split("::")[-1] in ("le", "gt", "ge", "eq") and "TinyLFU" in e["q"]]
+            est = outer_enters(p, lambda e: "TinyLFU::" in (e["q"] or ""), with_index=True)   # estimator calls, wherever they are made from
+            lt = [(i, e) for i, e in est if e["q"].endswith("TinyLFU::lt")]
+            other_cmp = [e for i, e in est if e["q"].split("::")[-1] in ("le", "gt", "ge", "eq")]
             if other_cmp:
                 bad("C10.R2", "wrong-comparison", "admission uses TinyLFU::%s; the candidate is rejected only if its estimate is strictly lower (lt)" % other_cmp[0]["q"].split("::")[-1], other_cmp[0].get("ln"))
             if not cand:
@@ -147,7 +148,7 @@ def put(cx, chk, cfg, F):
                     if ex:
                         r = ex[0]["ret"]
                         for c, t, e in facts:
-                            if c == r and e["depth"] == 0:
+                            if c == r:
                                 verdict = t
                         if isinstance(r, tuple) and r[0] == "const":
                             verdict = r[2] in ("1", "true")
@@ -266,7 +267,8 @@ def recording(cx, chk, cfg, F):
         n = 0
         for p in cx.paths(cfg, f["path"]):
             n += 1
-            incs = [(i, e) for i, e in enumerate(p.events) if e["ev"] == "enter" and e["depth"] == 0 and e["q"].split("::")[-1] in ("increment", "increment_hashed_key", "increment_keys", "increment_hashed_keys") and "TinyLFU" in e["q"]]
+            incs = [(i, e) for i, e in outer_enters(p, lambda e: "TinyLFU::" in (e["q"] or ""), with_index=True)
+                    if e["q"].split("::")[-1] in ("increment", "increment_hashed_key", "increment_keys", "increment_hashed_keys")]
             first_lookup = next((i for i, e in enumerate(p.events) if e["ev"] == "call" and "hm" in e and not e.get("generic")), len(p.events))
             if len(incs) != 1 or incs[0][1]["q"].split("::")[-1] != "increment" or incs[0][1]["args"][1] != KP:
                 ok = False
